@@ -31,7 +31,8 @@ class C12(Prop):
             'C11; non-trivial = the cancel was delivered while a block was active and an inner block had expired earlier')
     trusted = ('harness/vloop.py',)
     assumptions = ('the external cancel never coincides with a deadline (odd vs even instants)',
-                   'task-group joins inside the blocks: covered by C09/C10, not by this model')
+                   'task-group joins inside the blocks: the group part is the TaskGroup LTS (C12_group_join_stays_cancelled) '
+                   'and an oracle over real programs; the composition of a group inside timeout blocks is not one model')
 
     def corpus(self):
         f10 = ['block', 'timeout', False, 40, ['seq', ['try', ['block', 'timeout', False, 2, ['await', 8], 'cm'],
@@ -50,12 +51,56 @@ class C12(Prop):
             yield {'prog': p, 'ext': ext}
 
     def run_impl(self, case):
+        if case.get('tg'):
+            from harness.props import tg_common
+            return tg_common.run_case(case)
         return tc.run_program(case)
 
     def coq_case(self, case, obs):
+        if case.get('tg'):
+            return None
         return tc.coq_case(case, obs)
 
+    @staticmethod
+    def group_oracle(case, obs):
+        """a task cancelled from outside while it joins a TaskGroup (inside nested timeout blocks) ends cancelled"""
+        je = obs['join_end']
+        if je is None:
+            return None
+        cancelled_at = next((i for i, (l, sn) in enumerate(obs['trace']) if l[0] == 'cancelJ'), None)
+        if cancelled_at is not None and cancelled_at < je['at'] and not je['joiner_cancelled']:
+            return ('a task cancelled from outside while joining a task group did not end cancelled '
+                    f"(ended with {je['joiner_exc'] or 'a normal return'})")
+        return None
+
+    def extra_checks(self, ctx):
+        from harness.props import tg_common
+        from harness.core import Failure
+        rng = ctx['rng']
+        out = []
+        n = 400 if ctx['tier'] == 'quick' else 6000
+        hit = 0
+        for _ in range(n):
+            case = tg_common.gen_case(rng)
+            case['tg'] = True
+            case['wrap'] = [rng.choice(['timeout', 'ignore']) for _ in range(rng.randrange(0, 3))]
+            if not any(a[0] == 'cancelJ' for a in case['actions']):
+                case['actions'].insert(rng.randrange(2, len(case['actions'])), ['cancelJ'])
+            obs = tg_common.run_case(case)
+            cl = self.group_oracle(case, obs)
+            if obs['join_end'] and obs['join_end']['joiner_cancelled']:
+                hit += 1
+            if cl:
+                out.append(Failure(case, obs, cl))
+                if len(out) >= 3:
+                    break
+        ctx['notes'].append(f'group joins inside timeout blocks: {n} programs on the real TaskGroup, {hit} with the joining task '
+                            'ending cancelled after an external cancel')
+        return out
+
     def oracle(self, case, obs):
+        if case.get('tg'):
+            return self.group_oracle(case, obs)
         if obs['tie']:
             return None
         if obs['left']:
@@ -68,9 +113,13 @@ class C12(Prop):
         return None
 
     def nontrivial(self, case, obs):
+        if case.get('tg'):
+            return True
         return obs['cancel_delivered'] and any(x[1] for x in obs['log'])
 
     def histogram(self, case, obs):
+        if case.get('tg'):
+            return ['group_join']
         return ['out=' + obs['out'], 'delivered' if obs['cancel_delivered'] else 'undelivered',
                 'tie' if obs['tie'] else 'notie', 'catches_cancel' if tc.catches_cancel(case['prog']) else 'nocatch']
 
